@@ -32,8 +32,9 @@ open GqlModel
 inductive PErr where
   /-- `bad`: the flag of the state in which the error was raised (a malformed type reference had been let through
   before the parse failed; used only to classify error-offset differences should D-03b ever be repaired);
-  `left`: how many tokens (before `<EOF>`) had not been consumed when the error was raised — `0` means the parser
-  had already advanced past the last of them (used by the lazy-lexing layer `parseLazy`) -/
+  `left`: the number of tokens (before `<EOF>`) from the BLAMED token on — the blamed token has index `|toks| - left`;
+  `0` means the error blames `<EOF>`, i.e. the parser had advanced or looked past the last real token (used by the
+  lazy-lexing layer `parseLazy` and by C18's "first non-viable token" theorems, Props/C18Syntax.lean) -/
   | syntax (pos : Nat) (bad : Bool) (left : Nat)
   | fuel
 deriving DecidableEq, Repr
